@@ -1,13 +1,121 @@
-(* Props/C19.v — placeholder while the proofs are being written. *)
+(* Props/C19.v — Payload builder and decoder agree for every byte and word order.
+   ONLY statements: each theorem is closed by [exact <lemma>] (proofs/Payload_proofs.v)
+   and followed by [Print Assumptions].  All of them are about [GenPayload.code], the
+   record the translator regenerates from pymodbus/payload.py and constants.py on every
+   run ([C19_code_is_layout] is the tie).  Value sequences have any length; integers
+   range over their whole type; floats are IEEE bit patterns (every pattern of the width,
+   so subnormals and infinities are included; Python float <-> bits is outside the model). *)
 From PM.theories Require Import Base Struct Payload.
 From PM.Generated Require Import GenPayload.
+From PM.proofs Require Import Payload_proofs.
 Open Scope list_scope.
 Open Scope Z_scope.
 
+(* what the translator read from the source = the layout the method names promise *)
+Theorem C19_code_is_layout : code = spec_code.
+Proof. exact code_is_spec. Qed.
+Print Assumptions C19_code_is_layout.
+
+(* raw transport: the builder does not raise, and a fresh decoder with the same orders
+   returns exactly the values, in order, and stops at the end of the payload *)
+Theorem C19_roundtrip : forall bo wo vs,
+  wf_values vs = true ->
+  exists s, to_string code bo wo vs = Ok s /\
+            decode_seq code bo wo (types vs) s = Ok (vs, length s).
+Proof. exact roundtrip_code. Qed.
+Print Assumptions C19_roundtrip.
+
+(* the same through to_registers() -> fromRegisters(): the payload comes back with one
+   zero byte appended iff its length is odd, and the decoder still returns the values *)
+Theorem C19_via_registers : forall bo wo vs,
+  wf_values vs = true ->
+  exists s regs p, to_string code bo wo vs = Ok s /\
+    to_registers code bo false s = Ok regs /\
+    from_registers code regs = Ok p /\
+    p = s ++ (if Nat.odd (length s) then [0%N] else []) /\
+    decode_seq code bo wo (types vs) p = Ok (vs, length s).
+Proof. exact via_registers_code. Qed.
+Print Assumptions C19_via_registers.
+
+(* the pad byte (any trailing bytes at all) is irrelevant; bit groups of any length come
+   back zero padded to whole bytes ([decoded]), everything else exactly *)
+Theorem C19_trailing_bytes_irrelevant : forall bo wo vs post,
+  forallb in_domain vs = true ->
+  exists s, to_string code bo wo vs = Ok s /\
+            decode_seq code bo wo (types vs) (s ++ post) = Ok (map decoded vs, length s).
+Proof. exact roundtrip_general_code. Qed.
+Print Assumptions C19_trailing_bytes_irrelevant.
+
+(* registers are the big-endian 16-bit words of the (padded) payload, whatever the orders *)
+Theorem C19_registers_carry_payload : forall bo s,
+  wfb s = true ->
+  exists regs, to_registers code bo false s = Ok regs /\
+               regs = regs_of (s ++ (if Nat.odd (length s) then [0%N] else [])) /\
+               from_registers code regs = Ok (s ++ (if Nat.odd (length s) then [0%N] else [])).
+Proof. exact registers_carry_payload_code. Qed.
+Print Assumptions C19_registers_carry_payload.
+
+(* the image of every numeric value of 2k bytes is the conventional one … *)
+Theorem C19_image : forall bo wo k x,
+  (2 <= kind_width k)%nat -> in_kind_range k x = true ->
+  add_value code bo wo (VNum k x) = Ok (image bo wo (net_bytes k x)).
+Proof. exact image_code. Qed.
+Print Assumptions C19_image.
+
+(* … where, for network-order bytes B of even length: big/big is B itself, little word
+   order reverses the 16-bit words, little byte order swaps the bytes inside each word *)
+Theorem C19_image_convention : forall n B,
+  length B = (2 * n)%nat ->
+  image Big Big B = B /\
+  image Big Little B = concat (rev (words16 B)) /\
+  (forall wo, image Little wo B = concat (map (@rev N) (words16 (image Big wo B)))).
+Proof. exact image_convention. Qed.
+Print Assumptions C19_image_convention.
+
+(* … and the registers a single value occupies are the big-endian words of that image *)
+Theorem C19_register_image : forall bo wo k x,
+  (2 <= kind_width k)%nat -> in_kind_range k x = true ->
+  exists s, to_string code bo wo [VNum k x] = Ok s /\
+            s = image bo wo (net_bytes k x) /\
+            to_registers code bo false s = Ok (regs_of s).
+Proof. exact register_image_code. Qed.
+Print Assumptions C19_register_image.
+
+(* two's complement: a signed value is written exactly as the unsigned value congruent
+   to it modulo 2^bits … *)
+Theorem C19_signed : forall bo wo k x,
+  in_kind_range k x = true ->
+  add_value code bo wo (VNum k x) =
+  add_value code bo wo (VNum (unsigned_of k) (x mod 2 ^ (8 * Z.of_nat (kind_width k)))).
+Proof. exact signed_encode_code. Qed.
+Print Assumptions C19_signed.
+
+(* … which for a negative number is 2^bits + x, the patterns with the top bit set *)
+Theorem C19_signed_pattern : forall k x,
+  kind_signed k = true -> in_kind_range k x = true ->
+  let m := 2 ^ (8 * Z.of_nat (kind_width k)) in
+  x mod m = (if x <? 0 then x + m else x) /\ (x < 0 <-> m / 2 <= x mod m).
+Proof. exact signed_pattern. Qed.
+Print Assumptions C19_signed_pattern.
+
+(* numbers outside their type make the builder raise; nothing wraps silently *)
+Theorem C19_out_of_range_raises : forall bo wo k x,
+  in_kind_range k x = false -> add_value code bo wo (VNum k x) = Raise StructError.
+Proof. exact out_of_range_raises_code. Qed.
+Print Assumptions C19_out_of_range_raises.
+
+(* non-vacuity: concrete values under all four orders, an odd-length sequence through
+   registers, and a well-formed sequence of every type that satisfies the hypotheses *)
 Example C19_nonvacuous :
   to_string code Big Big [U32 0x11223344] = Ok (map Z.to_N [0x11; 0x22; 0x33; 0x44]) /\
   to_string code Big Little [U32 0x11223344] = Ok (map Z.to_N [0x33; 0x44; 0x11; 0x22]) /\
   to_string code Little Big [U32 0x11223344] = Ok (map Z.to_N [0x22; 0x11; 0x44; 0x33]) /\
-  to_string code Little Little [U32 0x11223344] = Ok (map Z.to_N [0x44; 0x33; 0x22; 0x11]).
+  to_string code Little Little [U32 0x11223344] = Ok (map Z.to_N [0x44; 0x33; 0x22; 0x11]) /\
+  (do s <- to_string code Little Little [I16 (-2); U8 7]; to_registers code Little false s) = Ok [0xFEFF; 0x0700] /\
+  let vs := [U8 255; U16 0x1234; U32 0x11223344; U64 0x1122334455667788; I8 (-128); I16 (-2); I32 (-3);
+             I64 (-0x8000000000000000); F16 0x7C00; F32 0x00000001; F64 0xFFF0000000000000;
+             Bits [true; false; true; true; false; false; false; true]; Str (map Z.to_N [0x61; 0x62; 0xFF])] in
+  wf_values vs = true /\
+  (do s <- to_string code Little Little vs; decode_seq code Little Little (types vs) s) = Ok (vs, 48%nat).
 Proof. vm_compute. repeat split. Qed.
 Print Assumptions C19_nonvacuous.
